@@ -20,6 +20,8 @@ verus! {
 //@include spec/sem_arms.rs
 //@include spec/evalctx_types.rs
 //@include spec/strmap.rs
+//@include spec/size.rs
+//@include spec/canon.rs
 //@include spec/evalctx.rs
 //@include spec/known.rs
 //@include spec/sem_laws.rs
@@ -48,7 +50,7 @@ verus! {
 //@assume substitute_hctl_var
 //@assume compute_valid_domain_for_var
 // ---------------- algorithm.rs
-//@trusted get_canonical_and_renaming
+//@assume get_canonical_and_renaming
 //@trusted compute_attractor_states
 //@verify compute_steady_states
 //@verify is_attractor_pattern
